@@ -68,6 +68,29 @@ def check_alloc_lock(ctx: Ctx, oid: str) -> None:
 
 
 
+def check_unregister_total(ctx: Ctx, oid: str) -> None:
+    """_no_longer_opened(id) removes the id from both tables on every path -- in particular whether or not a Channel object still
+    exists (`_channels` is weak: a dropped channel with a live callback is by construction absent from it) -- and hands the
+    end marker to the callback it removed (shared: C03.k, C10.k)"""
+    repo = ctx.repo
+    with ctx.obligation(oid, "unregister-total") as ob:
+        fnl = repo.func(f"{GB}.ChannelFactory._no_longer_opened")
+        cfg = build_cfg(repo, fnl, Oracle(repo, fnl, precise=True))
+        for tbl in ("self._channels", "self._callbacks"):
+            pn = cfg_nodes_with_call(cfg, lambda c: callee_attr(c) == "pop" and unparse(c.func.value) == tbl)
+            ok = bool(pn) and cfg.must_pass([cfg.entry.id], [cfg.exit.id], {x.id for x in pn}) is None
+            ob.site(fnl, pn[0].ast if pn else fnl.node, f"{tbl}.pop(id) on every path of _no_longer_opened", ok=ok)
+            if not ok:
+                ob.violation(fnl, pn[0].ast if pn else fnl.node, f"{tbl}.pop is not executed on every path of _no_longer_opened: for a channel whose object was dropped while its callback "
+                                                                 "stays registered the close never delivers the end marker and the registration stays for good",
+                             construct=f"conditional pop {tbl}")
+        from ._chan import entry_calls
+        em = [c for (c, _o, what) in entry_calls(repo, fnl) if what == "endmarker"]
+        ob.site(fnl, em[0] if em else fnl.node, "the removed callback is called with its end marker", ok=bool(em))
+        if not em:
+            ob.violation(fnl, fnl.node, "_no_longer_opened does not hand the end marker to the callback it removes", construct="no endmarker call")
+
+
 def check(ctx: Ctx) -> None:
     repo = ctx.repo
     ctx.decides = ("id parity: the initiating gateway starts at 1, the worker at 2 (even default), step 2; allocation and get-or-create inside "
